@@ -103,6 +103,9 @@ def gen(tier, rnd):
     regs = ['Accept', 'Access-Control-Allow-Origin', 'Access-Control-Allow-Headers', 'Access-Control-Expose-Headers', 'Access-Control-Allow-Methods', 'Allow', 'Cache-Control',
             'Connection', 'Content-Encoding', 'Content-Type', 'Authorization', 'Expect', 'Host', 'Location', 'Server', 'User-Agent']
     vals = {'Accept': 'text/html', 'Cache-Control': 'no-cache', 'Content-Type': 'text/plain', 'Host': 'example.com:8080', 'Transfer-Encoding': 'gzip', 'Content-Encoding': 'gzip'}
+    vals2 = {'Accept': 'image/png', 'Cache-Control': 'no-store', 'Content-Type': 'application/json', 'Host': 'other.example:9090', 'Content-Encoding': 'deflate',
+             'Connection': 'close', 'Location': '/second', 'Server': 'second/2', 'User-Agent': 'second', 'Access-Control-Allow-Origin': 'https://second.example',
+             'Access-Control-Allow-Headers': 'X-Second', 'Access-Control-Expose-Headers': 'X-Second', 'Access-Control-Allow-Methods': 'PUT'}
     def variants(name):
         vs = {name, name.lower(), name.upper(), name.swapcase(), ''.join(c.upper() if i % 2 else c.lower() for i, c in enumerate(name))}
         for _ in range(3): vs.add(''.join(c.upper() if rnd.random() < .5 else c.lower() for c in name))
@@ -113,6 +116,10 @@ def gen(tier, rnd):
             v = vals.get(name, tok(rnd, 1, 10))
             dup = rnd.choice(variants(name))
             msg = 'GET / HTTP/1.1\r\n%s: %s\r\nX-Other: 1\r\n%s: second\r\n\r\n' % (sent, v, dup) if name not in regs else 'GET / HTTP/1.1\r\n%s: %s\r\nX-Other: 1\r\n\r\n' % (sent, v)
+            if name in vals2:
+                # a registered field sent twice (second time under another capitalisation, with another valid value): typed and raw
+                # look-up must both give the first occurrence
+                msg = 'GET / HTTP/1.1\r\n%s: %s\r\nX-Other: 1\r\n%s: %s\r\n\r\n' % (sent, vals.get(name, 'first'), dup, vals2[name])
             qs = variants(name) + ['X-Absent', name + 'x']
             L.append('hlookup %s %s' % (hx(msg), ','.join(hx(q) for q in qs)))
     return L
@@ -139,6 +146,8 @@ def oracle(line, out):
                 if val != '~': return ('lookup', 'header %r found although absent' % q)
             elif val == '~' or unhx(val).decode('latin-1') != exp:
                 return ('lookup', 'header sent in %r looked up as %r gives %s, expected first value %r' % (msg.split(chr(13))[1], q, val, exp))
+            if '/T' in g and g.split('/T')[1] not in ('1',):
+                return ('lookup', 'the typed header found under %r holds occurrence %s of the field, not the first (message %r)' % (q, g.split('/T')[1], msg))
         return None
     if w[0] == 'hdrw':
         if w[1] == 'Host' and w[3] == '0':
